@@ -41,9 +41,20 @@ namespace irq {
         operator int() const { return load(); }
         sim_byte& operator=( int x ) { store( static_cast< std::uint8_t >( x ) ); return *this; }
         sim_byte& operator=( const sim_byte& o ) { store( o.v ); return *this; }
-        // a read-modify-write is a load, an ALU operation and a store (LDRB / ORR / STRB)
-        sim_byte& operator|=( int x ) { const std::uint8_t t = load(); store( static_cast< std::uint8_t >( t | x ) ); return *this; }
-        sim_byte& operator&=( int x ) { const std::uint8_t t = load(); store( static_cast< std::uint8_t >( t & x ) ); return *this; }
+        // a read-modify-write is a load, an ALU operation and a store (LDRB / ORR / STRB); with rmw_atomic the two are one
+        // step (what a critical section or an atomic instruction would give): the known lost-update race cannot occur then,
+        // so every loss or duplication in such a run has another cause
+        sim_byte& operator|=( int x )
+        {
+            if ( rmw_atomic ) { yield_point(); v = static_cast< std::uint8_t >( v | x ); return *this; }
+            const std::uint8_t t = load(); store( static_cast< std::uint8_t >( t | x ) ); return *this;
+        }
+        sim_byte& operator&=( int x )
+        {
+            if ( rmw_atomic ) { yield_point(); v = static_cast< std::uint8_t >( v & x ); return *this; }
+            const std::uint8_t t = load(); store( static_cast< std::uint8_t >( t & x ) ); return *this;
+        }
+        static inline bool rmw_atomic = false;
     };
 }
 
@@ -418,6 +429,9 @@ void run_nq( Q& q, const std::vector< int >& sizes, const sim::Plan& plan, sim::
     s.mode = static_cast< int >( ( ( plan.knob( "mode" ) % 3 ) + 3 ) % 3 );
     s.decisions = &decisions;
     std::vector< hop > history;
+    const bool rmw_atomic = ( plan.knob( "rmw_atomic" ) & 1 ) != 0;
+    sim_byte::rmw_atomic = rmw_atomic;
+    const std::string granularity = rmw_atomic ? " op-granularity" : "";
 
     auto do_op = [&]( int side, const sim::Op& op ) {
         hop h{};
@@ -457,9 +471,10 @@ void run_nq( Q& q, const std::vector< int >& sizes, const sim::Plan& plan, sim::
     for ( const auto& o : history )
         res.note( "%d %d %lld -> %lld %lld", o.side, o.kind, (long long)o.arg, (long long)o.r1, (long long)o.r2 );
 
+    sim_byte::rmw_atomic = false;
     std::string cfg = "partition (";
     for ( std::size_t i = 0; i != sizes.size(); ++i ) cfg += ( i ? "," : "" ) + std::to_string( sizes[ i ] );
-    cfg += ") mode " + std::to_string( s.mode );
+    cfg += ") mode " + std::to_string( s.mode ) + ( rmw_atomic ? " rmw-atomic" : "" );
 
     // accounting per (characteristic, kind): accepted requests == dequeued entries
     std::vector< int > accepted_n( N, 0 ), accepted_i( N, 0 ), deq_n( N, 0 ), deq_i( N, 0 );
@@ -499,7 +514,7 @@ void run_nq( Q& q, const std::vector< int >& sizes, const sim::Plan& plan, sim::
             if ( acc == deq ) continue;
             bad = true;
             const bool same_byte = contended( j );
-            const std::string key = std::string( deq < acc ? "lost" : "duplicated" ) + ( same_byte ? " same-byte-rmw" : " no-shared-byte" );
+            const std::string key = std::string( deq < acc ? "lost" : "duplicated" ) + ( same_byte ? " same-byte-rmw" : " no-shared-byte" ) + granularity;
             res.violate( "C13", "accounting", key, -1, "%s: %s %zu accepted %d times but dequeued %d times (%s): %s", cfg.c_str(), kind ? "indication" : "notification", j, acc, deq,
                          same_byte ? "producer and consumer both modified the queue byte of this characteristic" : "no other access to the queue byte of this characteristic", history_text( history ).c_str() );
         }
@@ -525,7 +540,7 @@ void run_nq( Q& q, const std::vector< int >& sizes, const sim::Plan& plan, sim::
         {
             bool any_contended = false;
             for ( std::size_t j = 0; j != N; ++j ) any_contended = any_contended || contended( j );
-            res.violate( "C13", "linearizability", any_contended ? "not-linearizable same-byte-rmw" : "not-linearizable no-shared-byte", -1,
+            res.violate( "C13", "linearizability", std::string( any_contended ? "not-linearizable same-byte-rmw" : "not-linearizable no-shared-byte" ) + granularity, -1,
                          "%s: history is not linearizable w.r.t. the pending-set model (%s): %s", cfg.c_str(),
                          any_contended ? "producer and consumer both modified one queue byte" : "producer and consumer never modified the same queue byte", history_text( history ).c_str() );
         }
@@ -581,6 +596,7 @@ struct irq_harness : sim::Harness
         else
         {
             p.config = static_cast< int >( rng.below( partitions.size() ) );
+            p.knobs[ "rmw_atomic" ] = rng.chance( 50 ) ? 1 : 0;
             std::size_t n = 0;
             for ( int x : partitions[ static_cast< std::size_t >( p.config ) ] ) n += static_cast< std::size_t >( x );
             // indices are biased to a narrow window so that producer and consumer meet on one byte
